@@ -14,6 +14,7 @@ import (
 	"go/constant"
 	"go/token"
 	"go/types"
+	"os"
 	"sort"
 	"strings"
 	"unicode"
@@ -1512,7 +1513,7 @@ func (x *c06Show) sinks(fi *FuncInfo, sp c06Spec) []*c06Sink {
 		recvWriter := isSel && c06IsWriter(info.TypeOf(sel.X)) && info.Selections[sel] != nil
 		argWriter := false
 		for _, a := range c.Args {
-			if c06IsWriter(info.TypeOf(a)) {
+			if c06IsWriter(info.TypeOf(a)) && !c06LocalBuffer(info, fi, a) {
 				argWriter = true
 			}
 		}
@@ -1585,6 +1586,10 @@ func (x *c06Show) sinks(fi *FuncInfo, sp c06Spec) []*c06Sink {
 			sk.name = fn.Name()
 			if why, ok := c06Exceptions[c06Symbol(fn)]; ok {
 				sk.kind, sk.fact = "exception", c06Symbol(fn)+": "+why
+			} else if hf := x.helperOK(fn, sp, map[*types.Func]bool{fi.Obj: true}); hf != "" {
+				// a helper of the package that receives the writer: every write it makes is itself
+				// sanitised, closed-alphabet or a delegation, under the escapers of this context
+				sk.kind, sk.fact = "delegate", hf
 			} else {
 				sk.kind, sk.fact = "unknown", "call of "+c06Symbol(fn)+" receiving the writer is not an escaper of this context"
 			}
@@ -1592,6 +1597,28 @@ func (x *c06Show) sinks(fi *FuncInfo, sp c06Spec) []*c06Sink {
 		sk.label = lab + ":" + sk.name
 		if sk.kind == "raw" && sk.class == "" {
 			sk.class, sk.fact = x.classify(fi, sp, sk.data, c, map[types.Object]bool{})
+			if sk.class == "untrusted" || sk.class == "unknown" {
+				// a value written only where it was just found equal to a string constant is that constant
+				if did, ok := ast.Unparen(sk.data).(*ast.Ident); ok && info.Uses[did] != nil {
+					cg := x.r.P.CFGOf(fi)
+					if cg.GuardedBy(c, func(l Lit) bool {
+						be, ok := ast.Unparen(l.Expr).(*ast.BinaryExpr)
+						if !ok || l.Tag != nil || be.Op != token.EQL || !l.Truth {
+							return false
+						}
+						for _, pr := range [][2]ast.Expr{{be.X, be.Y}, {be.Y, be.X}} {
+							if id, ok := ast.Unparen(pr[0]).(*ast.Ident); ok && info.Uses[id] == info.Uses[did] {
+								if _, isConst := stringValue(info, pr[1]); isConst {
+									return true
+								}
+							}
+						}
+						return false
+					}) {
+						sk.class, sk.fact = "lit", did.Name+" is written only where it equals a string constant"
+					}
+				}
+			}
 			key := fi.Name() + "#" + sk.label
 			if why, ok := c06Exceptions[key]; ok && sk.class != "lit" {
 				sk.kind, sk.fact = "exception", why
@@ -1612,6 +1639,76 @@ func (x *c06Show) sinks(fi *FuncInfo, sp c06Spec) []*c06Sink {
 		out = append(out, sk)
 	}
 	return out
+}
+
+// c06LocalBuffer reports whether e is &b (or b) with b a local variable of fi declared as a
+// strings.Builder or bytes.Buffer value: a scratch buffer, not the output writer.
+func c06LocalBuffer(info *types.Info, fi *FuncInfo, e ast.Expr) bool {
+	e = ast.Unparen(e)
+	if u, ok := e.(*ast.UnaryExpr); ok && u.Op == token.AND {
+		e = ast.Unparen(u.X)
+	}
+	id, ok := e.(*ast.Ident)
+	if !ok {
+		return false
+	}
+	v, ok := info.Uses[id].(*types.Var)
+	if !ok || v.IsField() || v.Pkg() == nil || v.Parent() == v.Pkg().Scope() {
+		return false
+	}
+	ts := typeStr(v.Type())
+	if ts != "strings.Builder" && ts != "bytes.Buffer" {
+		return false
+	}
+	// not a parameter
+	sig := fi.Obj.Type().(*types.Signature)
+	for i := 0; i < sig.Params().Len(); i++ {
+		if sig.Params().At(i) == v {
+			return false
+		}
+	}
+	return true
+}
+
+// helperOK analyses a function of the package that is given the writer by a show function: it returns a
+// description when every sink of the helper is acceptable under sp (sanitised, literal / closed / trusted
+// raw write, delegation), "" otherwise. Helpers calling helpers are followed; recursion is cut by seen.
+func (x *c06Show) helperOK(fn *types.Func, sp c06Spec, seen map[*types.Func]bool) string {
+	if fn == nil || fn.Pkg() != x.pkg || seen[fn] {
+		return ""
+	}
+	seen[fn] = true
+	var hfi *FuncInfo
+	for _, f := range x.r.P.Funcs("internal/runtime") {
+		if f.Obj == fn {
+			hfi = f
+		}
+	}
+	if hfi == nil {
+		return ""
+	}
+	n := 0
+	for _, sk := range x.sinks(hfi, sp) {
+		n++
+		if os.Getenv("C06_DEBUG") != "" {
+			fmt.Fprintf(os.Stderr, "helper %s sink %s kind=%s class=%s fact=%s\n", fn.Name(), sk.label, sk.kind, sk.class, sk.fact)
+		}
+		switch sk.kind {
+		case "sanitised", "delegate", "exception":
+		case "raw":
+			switch sk.class {
+			case "lit", "closed", "trusted", "inline":
+			default:
+				return ""
+			}
+		default:
+			return ""
+		}
+	}
+	if n == 0 {
+		return ""
+	}
+	return "helper " + fn.Name() + ": its " + itoa(n) + " writes are sanitised, literal or delegated under the escapers of this context"
 }
 
 // c06ReplacementLoop finds `for _, c := range s` over variable s whose body assigns U+FFFD to c.
